@@ -48,6 +48,7 @@ DECIDING = ['delivered == complete messages before the cut', 'iteration ends wit
             'server hands out every client message exactly once', 'server calls do not block',
             'parse_address(format_address(h, p)) == (h, p)']
 TIMEOUT = {'quick': 600, 'thorough': 3600}
+ENV_FULL = True        # cheap enough: every shard runs once in each interpreter environment (core.ENV_MODES)
 
 
 def nshards(tier):
